@@ -240,6 +240,108 @@ def gen_tiny_cases(rng, count, variant, complex_amplitudes=False):
 
 
 # ---------------------------------------------------------------------------------------------------------------
+# spectra that do not contain / straddle 0.  Every preset of LatticePresets is normal ordered, so the Fock vacuum is an eigenstate
+# with energy 0 and the lowest eigenvalue of every preset-built model is <= 0.  Lattice::Term accepts any operator string: the
+# hole-picture level  e c_i c^+_i = e (1 - n_i)  and the pair  v c c^+ + v c^+ c = v  are legal terms (Operator normal-orders them
+# and keeps the constant).  With them the whole spectrum can be positive (a ground energy computed as a minimum that starts from 0,
+# or from an uninitialised / zero-initialised member, is then wrong), negative, or straddle 0.  Dyadic amplitudes as everywhere.
+
+def _hole(v, site, orb, spin):
+    return "term 2 %s 0 %s %d %d 1 %s %d %d\n" % (scen.f(v), site, orb, spin, site, orb, spin)
+
+
+def _part(v, site, orb, spin):
+    return "term 2 %s 1 %s %d %d 0 %s %d %d\n" % (scen.f(v), site, orb, spin, site, orb, spin)
+
+
+def holes_levels(rng, symm="default", sign=None):
+    """e_i c_i c^+_i + f_i c^+_i c_i on every mode, Hubbard U, hopping; parameters of one sign (spectrum strictly positive or
+    strictly negative: every basis state has |diagonal energy| >= number of modes, hoppings <= 1/2) or of mixed signs"""
+    sign = sign or rng.choice(["positive", "negative", "mixed"])
+    nsites = rng.choice([1, 2, 2, 2, 3])
+    sites = ["A", "B", "C"][:nsites]
+    sg = {"positive": 1, "negative": -1, "mixed": 0}[sign]
+    s = "".join("site %s 1 2\n" % x for x in sites)
+    for x in sites:
+        for sp in (0, 1):
+            e = rng.choice([1, 1.25, 1.5, 2]) * (sg or rng.choice([1, -1]))
+            f_ = rng.choice([1, 1.5, 1.75, 2]) * (sg or rng.choice([1, -1]))
+            s += _hole(e, x, 0, sp) + _part(f_, x, 0, sp)
+        if rng.random() < 0.7:
+            U = rng.choice([0.5, 1, 2]) * (sg or 1)
+            s += "term 4 %s 1 %s 0 1 1 %s 0 0 0 %s 0 0 0 %s 0 1\n" % (scen.f(U), x, x, x, x)         # U n_up n_down
+    for a, b in zip(sites, sites[1:]):
+        s += "addHopping4 %s %s %s\n" % (a, b, scen.f(rng.choice([0.25, 0.5, -0.25])))
+    if nsites >= 2 and rng.random() < 0.3:
+        s += "addHopping8 A B %s 0 0 0 1\n" % scen.f(rng.choice([0.25, -0.25]))
+    return "holes-" + sign, s + "symm %s\nbeta %s\n" % (symm, scen.f(rng.choice(scen.BETAS))), 2 * nsites, {"holes": True}
+
+
+def shifted_family(rng, symm="default"):
+    """an ordinary model of tools/scen.py plus a constant: v c c^+ + v c^+ c = v on one mode, |v| above the band width"""
+    fam = rng.choice(FAMS_DEFAULT)
+    name, text, nm, info = fam(rng, symm)
+    v = rng.choice([4, 8, 16, -4, -8, -16])
+    lines = text.strip().split("\n")
+    site = [l.split()[1] for l in lines if l.startswith("site ")][0]
+    body = [l for l in lines if not (l.startswith("symm") or l.startswith("beta") or l.startswith("iom"))]
+    tail = [l for l in lines if l.startswith("symm") or l.startswith("beta") or l.startswith("iom")]
+    body += [_hole(v, site, 0, 0).strip(), _part(v, site, 0, 0).strip()]
+    return "shifted%s-%s" % ("+" if v > 0 else "-", name), "\n".join(body + tail) + "\n", nm, {"holes": True}
+
+
+def holes_only(rng, symm="default"):
+    """nothing but hole-type terms and a hopping: H = sum e_i (1 - n_i) + t (...): the vacuum is the HIGHEST or the lowest state"""
+    sg = rng.choice([1, -1])
+    s = "site A 1 2\nsite B 1 2\n"
+    for x in ("A", "B"):
+        for sp in (0, 1):
+            s += _hole(sg * rng.choice([1, 1.5, 2, 3]), x, 0, sp)
+    if rng.random() < 0.7:
+        s += "addHopping4 A B %s\n" % scen.f(rng.choice([0.25, 0.5]))
+    return "holes-only" + ("+" if sg > 0 else "-"), s + "symm %s\nbeta %s\n" % (symm, scen.f(rng.choice(scen.BETAS))), 4, {"holes": True}
+
+
+FAMS_HOLES = [lambda rng, symm="default": holes_levels(rng, symm, "positive"), shifted_family,
+              lambda rng, symm="default": holes_levels(rng, symm, "negative"), holes_only,
+              lambda rng, symm="default": holes_levels(rng, symm, "mixed")]
+
+
+def gen_hole_cases(rng, count, variant, complex_amplitudes=False):
+    """like gen_cases, over the families with hole-type terms / constants; cycled so that every one occurs also in a short run"""
+    cases = []
+    k = rng.randrange(len(FAMS_HOLES))
+    tries = 0
+    while len(cases) < count and tries < 10 * count + 20:
+        tries += 1
+        fam = FAMS_HOLES[k % len(FAMS_HOLES)]
+        k += 1
+        name, text, nm, info = fam(rng, "default")
+        if complex_amplitudes:
+            text = complexify(rng, text)
+        try:
+            parts = partitions(index_info(text, variant))
+        except Exception:
+            continue
+        kind = rng.choice(sorted(parts))
+        cases.append((name, kind, with_symm(text, parts[kind]), nm))
+    return cases
+
+
+def spectrum_class(eigs):
+    """of a {block: [eigenvalues]} dict: all-positive | all-negative | straddles-0 | touches-0 (0 is the lowest or the highest level)"""
+    ev = [e for l in eigs.values() for e in l]
+    lo, hi = min(ev), max(ev)
+    if lo > 0:
+        return "all-positive"
+    if hi < 0:
+        return "all-negative"
+    if lo < 0 < hi:
+        return "straddles-0"
+    return "touches-0"
+
+
+# ---------------------------------------------------------------------------------------------------------------
 # dump views
 
 def cplx_list(tokens):
@@ -310,3 +412,97 @@ def shrink(text, still_fails, max_tries=40):
             if tries >= max_tries:
                 break
     return "\n".join(lines) + "\n"
+
+
+# ---------------------------------------------------------------------------------------------------------------
+# histories on one object (harness h_c03 `history`): prepare / compute called more than once on one HamiltonianPart / Hamiltonian
+
+PART_HISTORIES = ["pcpc", "ppc", "pcc", "pcpcpc", "pcppc"]     # p = HamiltonianPart::prepare, c = HamiltonianPart::compute
+HAM_HISTORIES = ["PCPC", "PPC", "PCC", "PCPPCC"]               # P = Hamiltonian::prepare(comm), C = Hamiltonian::compute(comm)
+
+
+class Histories:
+    """parsed output of `history`: .base = N / HPOLY / NBLOCKS / BLOCK records (token lists),
+    .pstep[(h, k, b)] = (status, size, [complex row-major]), .peig[(h, k, b)] = [float],
+    .hstep[(h, k)] = status, .hpart[(h, k, b)], .heig[(h, k, b)], .hground[(h, k)], .hestate[(h, k)], .heall[(h, k)],
+    .throws = [token lists], .done, .rc, .err, .input"""
+
+    def __init__(self):
+        self.base, self.pstep, self.peig, self.hstep, self.hpart, self.heig = [], {}, {}, {}, {}, {}
+        self.hground, self.hestate, self.heall, self.throws = {}, {}, {}, []
+        self.done, self.rc, self.err, self.input, self.error = False, None, "", "", None
+
+    def n(self):
+        return int([t for t in self.base if t[0] == "N"][0][1])
+
+    def blocks(self):
+        return {int(t[1]): [int(x) for x in t[3:]] for t in self.base if t[0] == "BLOCK"}
+
+
+def run_histories(text, variant, part_hists, ham_hists, timeout=300):
+    h = pv.build_harness("h_c03", variant)
+    hs = Histories()
+    hs.input = "model\n%s\nend\nhistory %s\n" % (text.strip(), " ".join(list(part_hists) + list(ham_hists)))
+    hs.rc, out, hs.err = pv.run_harness(h, hs.input, timeout=timeout)
+    for l in out.split("\n"):
+        t = l.split()
+        if not t:
+            continue
+        if t[0] in ("N", "HPOLY", "NBLOCKS", "BLOCK"):
+            hs.base.append(t)
+        elif t[0] == "ERROR":
+            hs.error = " ".join(t[1:])
+        elif t[0] == "PSTEP":
+            hs.pstep[(t[1], int(t[2]), int(t[3]))] = (int(t[4]), int(t[5]), cplx_list(t[6:]))
+        elif t[0] == "PEIG":
+            hs.peig[(t[1], int(t[2]), int(t[3]))] = [HX(x) for x in t[4:]]
+        elif t[0] == "HSTEP":
+            hs.hstep[(t[1], int(t[2]))] = int(t[3])
+        elif t[0] == "HPART":
+            hs.hpart[(t[1], int(t[2]), int(t[3]))] = (int(t[4]), int(t[5]), cplx_list(t[6:]))
+        elif t[0] == "HEIG":
+            hs.heig[(t[1], int(t[2]), int(t[3]))] = [HX(x) for x in t[4:]]
+        elif t[0] == "HGROUND":
+            hs.hground[(t[1], int(t[2]))] = HX(t[3])
+        elif t[0] == "HESTATE":
+            hs.hestate[(t[1], int(t[2]))] = [HX(x) for x in t[3:]]
+        elif t[0] == "HEALL":
+            hs.heall[(t[1], int(t[2]))] = [HX(x) for x in t[3:]]
+        elif t[0] in ("PTHROW", "HTHROW", "BADHISTORY"):
+            hs.throws.append(t)
+        elif t[0] == "HISTDONE":
+            hs.done = True
+    return hs
+
+
+def _hexc(z):
+    return "%s %s" % (float(z.real).hex(), float(z.imag).hex())
+
+
+def model_histories(hs, mode, eigen_systems):
+    """one run of the model driver for a whole scenario: the model's blocks (MHBLK) and, for every eigen-system in
+    eigen_systems = [{block: (size, [complex row-major U], [eigenvalues])}] (all blocks present), the answer to `energies`
+    (BCERT with the model's own H_b, MGROUND, MESTATE, MEALL).  Returns (rc, {b: (size, [complex]) | None}, [list of records], stderr)."""
+    base = "\n".join(" ".join(t) for t in hs.base)
+    inp = base + "\nmode %s\nhblk\n" % mode
+    for es in eigen_systems:
+        inp += base + "\n"
+        for b in sorted(es):
+            sz, u, e = es[b]
+            inp += "VEC %d %d %s\n" % (b, sz, " ".join(_hexc(z) for z in u))
+            inp += "EIG %d %s\n" % (b, " ".join(float(x).hex() for x in e))
+        inp += "mode %s\nenergies\n" % mode
+    rc, out, err = pv.sh([driver()], input=inp, timeout=600)
+    recs = [l.split() for l in out.split("\n") if l.strip()]
+    mh, groups = {}, []
+    for t in recs:
+        if t[0] == "DRIVER-ERROR":
+            rc = rc or 99
+            err += " " + " ".join(t)
+        elif t[0] == "MHBLK":
+            mh[int(t[1])] = None if t[2] == "FAIL" else (int(t[2]), cplx_list(t[3:]))
+        elif t[0] == "MGROUND":
+            groups.append([t])
+        elif groups:
+            groups[-1].append(t)
+    return rc, mh, groups, err
